@@ -165,6 +165,9 @@ func (r *Report) Decide(verifDir string, replay func(o *Obligation) (path string
 			if o.Cover {
 				reason = "vacuous-contract"
 			}
+			if o.SpecErr != "" {
+				reason = "contract-error"
+			}
 			violationLines = append(violationLines, fmt.Sprintf("VIOLATION property=%s replay=%s obligation=%s reason=%s no-failing-input-found", r.Prop, path, o.Name, reason))
 		case concrete:
 			violationLines = append(violationLines, fmt.Sprintf("VIOLATION property=%s replay=%s obligation=%s (new obligation, replayed)", r.Prop, path, o.Name))
